@@ -19,6 +19,8 @@ CLAIMS = {
 }
 CLAIMS["C19"] = ("type-level facts for every static of both crates (no static mut, settings are immutable OnceLock, other interior-mutable statics classified), who-may-access sets, single default installer, accessor return-value dataflow, DEFAULT-constant rule on internal limit reads, guard polarity",
                  "static analysis: compiler type facts + who-may-access + dataflow over MIR")
+CLAIMS["C03"] = ("pairing/ordering facts on Writer and Block: rollback of the pending buffer on a failed append, count-once after successful encode, flush order (compress, count, size, payload, marker, clear/reset), header-once, Drop/into_inner flush, reader bookkeeping after successful decode, extend = append-per-item + flush",
+                 "static analysis: dominance / post-dominance / edge-region pairing rules over MIR")
 NA_DEFAULT = "check under construction in this round (see DESIGN.md); not yet claimed"
 
 
